@@ -159,7 +159,7 @@ Qed.
 (* ------------------------------------------------------------------------------------------------ *)
 Inductive stale_kind :=
 | SModuleRemoved | SSubmoduleRemoved | SFuncRemoved | SLocalScope
-| SNonFunction | SNowClass | SSettableProperty | SNoGetterProperty
+| SNonFunction | SNowClass | SSettableProperty | SNoGetterProperty | SOtherFunction
 | SArgClassRemoved | SReturnClassRemoved | SYieldClassRemoved | SClassNonType.
 
 Definition kind_class (k : stale_kind) : mtclass :=
@@ -187,6 +187,13 @@ Definition nonfunc_kind (k : okind) : Prop :=
 Definition func_name_is (w : world) (r : row) (P : okind -> Prop) : Prop :=
   exists o k t wr, get_name_in_module w (r_module r) (r_qualname r) = Ok o /\ unwrap o = Obj k t wr /\ P k.
 
+(* the function object get_func_in_module ends up with, for the kinds of object it accepts *)
+Definition func_ref (k : okind) : option fref :=
+  match k with
+  | KMethod f | KFunc f | KProperty (Some f) false => Some f
+  | _ => None
+  end.
+
 Definition exhibits (w : world) (r : row) (k : stale_kind) : Prop :=
   match k with
   | SModuleRemoved => w_import w (r_module r) = ImpNotFound
@@ -200,6 +207,10 @@ Definition exhibits (w : world) (r : row) (k : stale_kind) : Prop :=
   | SNowClass => func_name_is w r (fun k => exists c, k = KClass c)
   | SSettableProperty => func_name_is w r (fun k => exists f, k = KProperty (Some f) true)
   | SNoGetterProperty => func_name_is w r (fun k => exists b, k = KProperty None b)
+  (* the name is bound to a function (an alias, a closure, an undecorating wrapper) whose own qualified name is
+     not the recorded one *)
+  | SOtherFunction =>
+      func_name_is w r (fun k => exists f fq, func_ref k = Some f /\ fr_qual f = Some fq /\ fq <> r_qualname r)
   | SArgClassRemoved => func_found w r /\ exists e, at_arg w r e /\ stale_ty w RefGone e
   | SReturnClassRemoved => func_found w r /\ exists e, at_ret w r e /\ stale_ty w RefGone e
   | SYieldClassRemoved => func_found w r /\ exists e, at_yield w r e /\ stale_ty w RefGone e
@@ -222,6 +233,18 @@ Proof.
   { unfold get_func_in_module. rewrite Hn. cbn [bindr]. unfold func_of_obj. rewrite Hu.
     destruct k as [f|f|[f|] [|]|c| |g|]; try contradiction; eexists; split; reflexivity. }
   destruct E as [err [E C]]. exists err. split; [apply to_trace_func_err; exact E|exact C].
+Qed.
+
+Lemma other_function_err : forall w r,
+  func_name_is w r (fun k => exists f fq, func_ref k = Some f /\ fr_qual f = Some fq /\ fq <> r_qualname r) ->
+  exists err, to_trace w r = MTError err /\ mt_class err = InvalidTypeError.
+Proof.
+  intros w r (o & k & t & wr & Hn & Hu & f & fq & Hf & Hq & Hne).
+  exists (WrongName (r_module r) (r_qualname r) (fr_mod f) fq). split; [|reflexivity].
+  apply to_trace_func_err. unfold get_func_in_module. rewrite Hn. cbn [bindr]. unfold func_of_obj. rewrite Hu.
+  destruct k as [f'|f'|[f'|] [|]|c| |g|]; cbn in Hf; try discriminate; inversion Hf; subst f';
+    unfold check_name; rewrite Hq;
+    (destruct (String.eqb fq (r_qualname r)) eqn:E; [apply String.eqb_eq in E; contradiction|reflexivity]).
 Qed.
 
 Lemma at_arg_err : forall w r e err, func_found w r -> at_arg w r e -> decode_ty w e = MTError err ->
@@ -270,6 +293,7 @@ Proof.
   - apply (func_name_err w r _ H). intros k [c Hk]. subst k. exact I.
   - apply (func_name_err w r _ H). intros k [f Hk]. subst k. exact I.
   - apply (func_name_err w r _ H). intros k [b Hk]. subst k. exact I.
+  - exact (other_function_err w r H).
   - destruct H as [Hf (e & Hpos & Hs)]. destruct (stale_ty_mterror _ _ _ Hs) as [err [E C]].
     exists err. split; [exact (at_arg_err w r e err Hf Hpos E)|exact C].
   - destruct H as [Hf (e & Hpos & Hs)]. destruct (stale_ty_mterror _ _ _ Hs) as [err [E C]].
